@@ -1,6 +1,6 @@
 --------------------------- MODULE MC_RevTree ---------------------------
 EXTENDS RevTree, Json
-MCGood == AllGoodChains
+MCGood == AllGoodChains(MaxGen)
 MCBad  == AllBadChains({r \in Rev : r.d = 1} \cup {Mk(1, 2)})     \* a few malformed histories are enough
 NoChains == {}
 One == {1}
